@@ -414,11 +414,17 @@ func (c *Ctx) markerIndexIsRangeElem(o outcome, fn *ssa.Function) (ok bool, keye
 				if strings.HasPrefix(d, "elem[?](field(") && strings.Contains(d, "util.IgnoreSet.Markers)") {
 					// idx must be elem of range over the lookup result
 					var idxOK bool
+					var ias []*ssa.IndexAddr
 					for _, rr := range c.markerLoads(base) {
-						ia, isIA := rr.X.(*ssa.IndexAddr)
-						if !isIA {
-							continue
+						if ia, isIA := rr.X.(*ssa.IndexAddr); isIA {
+							ias = append(ias, ia)
 						}
+					}
+					// s.Markers[idx].StartPos read in place (no local copy of the marker)
+					if ia, isIA := base.(*ssa.IndexAddr); isIA {
+						ias = append(ias, ia)
+					}
+					for _, ia := range ias {
 						idd := P.Desc(ia.Index)
 						if strings.HasPrefix(idd, "elem(lookup(field(") && strings.Contains(idd, "util.IgnoreSet.CodeIndex)") {
 							idxOK = true
